@@ -364,6 +364,12 @@ MIX_DW = DW_PROGRAMS + [
     "entry attribute (label, form)", "entry ?AT_declaration", "entry name", "entry @AT_byte_size", "entry @AT_upper_bound",
     "entry ?TAG_subprogram @AT_high_pc", "entry @AT_data_member_location", "entry @AT_language", "entry @AT_encoding",
     "[entry @AT_const_value] [entry high]", "entry root", "entry unit", "entry abbrev offset",
+    # assertions about what a DIE or attribute lacks (what "not there" means must not depend on what libdw was last
+    # asked), after words that leave libdw's error word set although they succeed (address / high / low on DIEs
+    # without such attributes)
+    "entry !AT_name offset", "entry !AT_type offset", "entry !AT_low_pc !AT_declaration offset", "entry ?AT_name !AT_external offset",
+    "entry !TAG_subprogram !AT_sibling offset", "entry !(@AT_name) offset", "entry !(child) offset", "entry attribute !AT_name label",
+    "entry ?AT_decl_line offset", "[entry address] [entry !AT_byte_size offset]", "entry attribute !FORM_data1 label",
 ]
 # (the backticked capture is not documented; it is listed because its compiled form must not depend
 # on what was compiled earlier any more than that of any other construct)
